@@ -87,10 +87,11 @@ class BuiltinConverterProvider(ConverterProvider):
         coercer: Coercer,
     ) -> tuple[str, Mapping[str, object]]:
         builder = CodeBuilder()
-        namespace = BuiltinCascadeNamespace(occupied=signature.parameters.keys())
-        namespace.add_outer_constant("_closure_signature", signature)
-        namespace.add_outer_constant("_stub_function", stub_function)
-        namespace.add_outer_constant("_update_wrapper", update_wrapper)
+        namespace = BuiltinCascadeNamespace(occupied={*signature.parameters.keys(), closure_name})
+        # the closure name is occupied, so constants can not be shadowed by the defined function
+        signature_var = self._register_mangled(namespace, "_closure_signature", signature)
+        stub_function_var = self._register_mangled(namespace, "_stub_function", stub_function)
+        update_wrapper_var = self._register_mangled(namespace, "_update_wrapper", update_wrapper)
         coercer_var = self._register_mangled(namespace, "coercer", coercer)
 
         no_types_signature = signature.replace(
@@ -106,8 +107,8 @@ class BuiltinConverterProvider(ConverterProvider):
             """,
         )
         if stub_function is not None:
-            builder += f"_update_wrapper({closure_name}, _stub_function)"
-        builder += f"{closure_name}.__signature__ = _closure_signature"
+            builder += f"{update_wrapper_var}({closure_name}, {stub_function_var})"
+        builder += f"{closure_name}.__signature__ = {signature_var}"
         builder += f"{closure_name}.__name__ = {closure_name!r}"
         return builder.string(), namespace.all_constants
 
